@@ -13,6 +13,7 @@ import (
 	"math/rand"
 	"os"
 	"path/filepath"
+	"syscall"
 
 	"verifharness/internal/marblx"
 	"verifharness/internal/vh"
@@ -32,6 +33,20 @@ type fuzzInput struct {
 }
 
 var curFile *os.File
+
+// limitAS caps the address space of this process (the same limit the driver
+// applies to the fuzz batches with ulimit -v). It is set from inside as well
+// because a replay is run by the driver without that limit: on a reader that
+// allocates what length fields claim, an unlimited replay would allocate and
+// zero gigabytes per input instead of dying at once.
+func limitAS(mb uint64) {
+	lim := syscall.Rlimit{Cur: mb << 20, Max: mb << 20}
+	var cur syscall.Rlimit
+	if err := syscall.Getrlimit(syscall.RLIMIT_AS, &cur); err == nil && cur.Cur < lim.Cur {
+		return
+	}
+	syscall.Setrlimit(syscall.RLIMIT_AS, &lim)
+}
 
 func persist(r *vh.Run, idx int, in []byte) {
 	if curFile == nil {
